@@ -556,6 +556,16 @@ impl DmlExecutor {
                     let search_result = index_btree.search_tuple(&index_tuple, &index_schema)?;
 
                     if let SearchResult::Found(position) = search_result {
+                        // An entry left behind by an INSERT that was rolled back stands for no row: the new
+                        // row takes it over. (Keeping it left the new row without an entry: invisible to
+                        // index scans and to the uniqueness probe.)
+                        let leftover =
+                            index_btree.get_tuple_at_unchecked(position, &index_schema)?;
+                        if snapshot.is_transaction_aborted(leftover.xmin()) {
+                            index_btree.update(index_root, index_tuple, index_schema)?;
+                            continue;
+                        }
+
                         let existing =
                             index_btree.get_tuple_at_unchecked(position, &index_schema)?;
 
